@@ -1,0 +1,68 @@
+//go:build verif
+
+/*
+ * SPDX-License-Identifier: Apache-2.0
+ */
+
+package z
+
+import "sync/atomic"
+
+// Verification hooks, enabled (`-tags verif`). Nothing changes behaviour until
+// a hook table is installed with VerifInstall.
+
+const (
+	verifSiteAllocAdd      = 1 // Allocate: before the packed atomic add
+	verifSiteAllocAdded    = 2 // Allocate: position reserved, before the chunk is read
+	verifSiteAllocLock     = 3 // Allocate: chunk overshot, before the slow-path lock
+	verifSiteAllocUnlocked = 4 // Allocate: slow path left
+	verifSiteAllocReset    = 5
+
+	VerifSiteAllocAdd      = verifSiteAllocAdd
+	VerifSiteAllocAdded    = verifSiteAllocAdded
+	VerifSiteAllocLock     = verifSiteAllocLock
+	VerifSiteAllocUnlocked = verifSiteAllocUnlocked
+	VerifSiteAllocReset    = verifSiteAllocReset
+)
+
+// VerifHooks is the hook table of package z.
+type VerifHooks struct {
+	// Yield is a preemption point of a deterministic simulator.
+	Yield func(site int)
+}
+
+var verifH *VerifHooks
+
+// VerifInstall installs (or with nil removes) the hook table.
+func VerifInstall(h *VerifHooks) { verifH = h }
+
+func verifYield(site int) {
+	if h := verifH; h != nil && h.Yield != nil {
+		h.Yield(site)
+	}
+}
+
+// VerifSetPageSize sets the page size of trees created afterwards (the
+// package-level tuning variables pageSize/maxKeys) and returns the old one.
+// The smallest page that holds four keys is 80 bytes.
+func VerifSetPageSize(n int) int {
+	old := pageSize
+	pageSize = n
+	maxKeys = (pageSize / 16) - 1
+	oneThird = int(float64(maxKeys) / 3)
+	return old
+}
+
+// VerifAllocState reports where the next allocation of a would be placed:
+// chunk index, position inside it, length of that chunk and of the next one
+// (0 if it does not exist yet). Read-only.
+func VerifAllocState(a *Allocator) (bufIdx, posIdx, curLen, nextLen int) {
+	bufIdx, posIdx = parse(atomic.LoadUint64(&a.compIdx))
+	if bufIdx < len(a.buffers) {
+		curLen = len(a.buffers[bufIdx])
+	}
+	if bufIdx+1 < len(a.buffers) {
+		nextLen = len(a.buffers[bufIdx+1])
+	}
+	return
+}
